@@ -70,13 +70,8 @@ pub fn check_pair(mk_t: &dyn Fn(bool) -> Sut, mk_s: &dyn Fn() -> Sut, universe: 
         e.2 = 1000 + e.0 as u32;
     }
     let cs = contents(&s);
-    if !same_hasher {
-        // clone_from copies the hasher too; keep this part to equally-hashed pairs
-        let _ = s.dispose();
-        let base = t.dispose();
-        end_of_run_checks(&base)?;
-        return Ok(n);
-    }
+    // (clone_from copies the hasher too: from here on the target hashes like the source)
+    let _ = same_hasher;
     // clone_from(target <- source)
     let src_serials = serials(&s);
     t.map.clone_from(&s.map);
@@ -91,6 +86,8 @@ pub fn check_pair(mk_t: &dyn Fn(bool) -> Sut, mk_s: &dyn Fn() -> Sut, universe: 
         return Err("clone_from: target shares an element instance with the source (not an independently owned clone)".into());
     }
     t.model = s.model.clone();
+    t.alt = s.alt;
+    t.class_of = s.class_of.clone();
     t.check_all(universe, true, false).map_err(|m| format!("clone_from target (was {:?}, source {:?}): {m}", ct, cs))?;
     n += 1;
     // independence: change the target, the source must not move; then the other way round
